@@ -875,6 +875,35 @@ pub fn sweep_cases() -> Vec<(String, FCase)> {
         p.push(FOp::BBuild { o: 0 });
         out.push((format!("misuse-push-full/N={n}"), FCase { plan: p }));
     }
+    // fault-free exhaustion cells: steps on drained / empty containers, clones of them, zero-length builds
+    for &n in NS.iter() {
+        let mut p = vec![FOp::NewArray { n }, FOp::ToConsumer { o: 0 }];
+        for _ in 0..n + 1 {
+            p.push(FOp::CNext { o: 0 });
+        }
+        p.extend([FOp::CNextBack { o: 0 }, FOp::CNextBack { o: 0 }, FOp::CAsSlice { o: 0 }, FOp::CClone { o: 0, fault: 0 }, FOp::CAsSlice { o: 1 }, FOp::CNext { o: 1 }, FOp::CDebug { o: 0 }, FOp::CAssertEmpty { o: 0 }, FOp::CDrop { o: 0, fault: 0 }]);
+        out.push((format!("exhaustion/consumer-drained-from-front/N={n}"), FCase { plan: p }));
+        let mut p = vec![FOp::NewArray { n }, FOp::ToConsumer { o: 0 }];
+        for _ in 0..n + 1 {
+            p.push(FOp::CNextBack { o: 0 });
+        }
+        p.extend([FOp::CNext { o: 0 }, FOp::CAsSlice { o: 0 }, FOp::CSwap { o: 0, i: 0, j: 1 }, FOp::CClone { o: 0, fault: 0 }, FOp::CDrop { o: 0, fault: 0 }, FOp::CDrop { o: 0, fault: 0 }]);
+        out.push((format!("exhaustion/consumer-drained-from-back/N={n}"), FCase { plan: p }));
+        out.push((
+            format!("exhaustion/empty-consumer/N={n}"),
+            FCase { plan: vec![FOp::EmptyConsumer { n }, FOp::CNext { o: 0 }, FOp::CNextBack { o: 0 }, FOp::CAsSlice { o: 0 }, FOp::CClone { o: 0, fault: 0 }, FOp::CDebug { o: 1 }, FOp::CCloneFrom { o: 0, c: 0 }, FOp::CAssertEmpty { o: 1 }, FOp::CDrop { o: 0, fault: 0 }] },
+        ));
+        let mut p = vec![FOp::NewArray { n }, FOp::ToConsumer { o: 0 }];
+        for i in 0..n {
+            p.push(if i % 2 == 0 { FOp::CNext { o: 0 } } else { FOp::CNextBack { o: 0 } });
+        }
+        p.extend([FOp::NewBuilder { n }, FOp::BObserve { o: 0 }, FOp::BDebug { o: 0 }]);
+        for _ in 0..n {
+            p.push(FOp::BPush { o: 0, t: 0 });
+        }
+        p.extend([FOp::BObserve { o: 0 }, FOp::BSwap { o: 0, i: 0, j: 1 }, FOp::BClone { o: 0, fault: 0 }, FOp::BInferLen { o: 0, c: 0 }, FOp::BBuild { o: 0 }, FOp::BBuild { o: 0 }, FOp::ToConsumer { o: 0 }, FOp::CNextBack { o: 1 }, FOp::MapNew { o: 0, closure: 0, exit: Exit::None }, FOp::ADrop { o: 0, fault: 0 }]);
+        out.push((format!("exhaustion/builder-fill-clone-build-recirculate/N={n}"), FCase { plan: p }));
+    }
     // every destructure! shape once (no fault: the by-value reads themselves are the subject; under
     // Miri this is where a misaligned or out-of-bounds read of a field shows)
     for shape in 0..N_SHAPES {
